@@ -39,7 +39,7 @@ man = {
     },
     'engines': [
         {'name': 'E1-crosshair', 'path': 'engine/worker.py', 'kind_free_text': 'CrossHair 0.0.110 symbolic execution (z3) of the real compiled C extension and the pure-Python implementation through symbolic key objects; per-obligation path-tree exhaustion',
-         'serves_properties': [c['property_id'] for c in checks if c['engine'].startswith('E1')]},
+         'serves_properties': [c['property_id'] for c in checks if 'E1' in c['engine']]},
         {'name': 'E2-llsym', 'path': 'engine/llsym.py', 'kind_free_text': 'clang-14 LLVM IR of the real family sources interpreted symbolically with z3 bit-vectors (native-key kernels)',
          'serves_properties': [c['property_id'] for c in checks if 'E2' in c['engine']]},
     ],
